@@ -7,6 +7,7 @@
 //!   cache random   <threads> <ops> <limit-bytes> <tl> <virtual|real>     method C: events for Trace_Cache.tla
 //!   cache handlers <dir> <ops> <limit-bytes> <tl> <threads>              method C at handler level (static.rs)
 //!   cache realclock                                                      a few paths on the unmodified clock, real sleeps
+//!   cache realhandlers <dir>                                             handler level on the unmodified clock
 //!   cache runseq   <limit> <tl> <unit>   stdin: JSON [[op,route#,host,size,id,d],...]  (replay of one case)
 //!   cache runseq   <limit> <tl> <unit> trace   stdin: one such JSON array per line; stdout: the observed histories
 //!                                              in the log format of `random` (input of the property judge Trace_CacheProp)
@@ -342,18 +343,24 @@ fn run_checked(t: &Table, limit: usize, tl: usize, unit: usize, seq: &[OpA], che
 }
 
 /// A bounded, seeded sample of the mismatching operation sequences (the first ones and a reservoir of
-/// the rest): on a mismatch the driver lets TLC judge the observed histories against the property alone.
+/// the rest; sequences in which a call panicked are kept with priority): on a mismatch the driver lets
+/// TLC judge the observed histories against the property alone.
 struct Sample {
     cap: usize,
     seen: u64,
     rng: Rng,
     seqs: Vec<Vec<OpA>>,
+    prio: Vec<Vec<OpA>>,
 }
 impl Sample {
     fn new(cap: usize, seed: u64) -> Self {
-        Sample { cap, seen: 0, rng: Rng::new(seed), seqs: vec![] }
+        Sample { cap: cap.max(8), seen: 0, rng: Rng::new(seed), seqs: vec![], prio: vec![] }
     }
-    fn offer(&mut self, seq: &[OpA]) {
+    fn offer(&mut self, seq: &[OpA], panicked: bool) {
+        if panicked && self.prio.len() < self.cap / 2 {
+            self.prio.push(seq.to_vec());
+            return;
+        }
         self.seen += 1;
         if self.seqs.len() < self.cap {
             self.seqs.push(seq.to_vec());
@@ -365,7 +372,64 @@ impl Sample {
         }
     }
     fn json(samples: Vec<Sample>) -> Value {
-        json!(samples.into_iter().flat_map(|s| s.seqs.into_iter()).map(|q| q.iter().map(|o| o.json()).collect::<Vec<_>>()).collect::<Vec<_>>())
+        let mut all: Vec<Vec<OpA>> = vec![];
+        for s in samples {
+            all.extend(s.prio);
+            all.extend(s.seqs);
+        }
+        json!(all.into_iter().map(|q| q.iter().map(|o| o.json()).collect::<Vec<_>>()).collect::<Vec<_>>())
+    }
+}
+
+/// Hang detection.  Every worker bumps its progress counter per executed sequence / operation and
+/// publishes what it is executing; when NO worker has made progress for HANG_SECS the process reports
+/// what the workers were executing and exits with code 4 (a call of the code under test did not
+/// return; the wait is generous, nothing fails for being slow).
+const HANG_SECS: u64 = 90;
+struct Watch {
+    prog: Vec<AtomicU64>,
+    cur: Vec<[AtomicU64; 8]>,
+    note: Vec<Mutex<String>>,
+    finished: AtomicUsize,
+}
+impl Watch {
+    fn new(workers: usize) -> Self {
+        Watch {
+            prog: (0..workers).map(|_| AtomicU64::new(0)).collect(),
+            cur: (0..workers).map(|_| std::array::from_fn(|_| AtomicU64::new(0))).collect(),
+            note: (0..workers).map(|_| Mutex::new(String::new())).collect(),
+            finished: AtomicUsize::new(0),
+        }
+    }
+    fn tick(&self, w: usize) {
+        self.prog[w].fetch_add(1, Ordering::Relaxed);
+    }
+    fn set(&self, w: usize, slot: usize, v: u64) {
+        self.cur[w][slot].store(v, Ordering::Relaxed);
+    }
+    fn get(&self, w: usize, slot: usize) -> u64 {
+        self.cur[w][slot].load(Ordering::Relaxed)
+    }
+    fn done(&self) {
+        self.finished.fetch_add(1, Ordering::SeqCst);
+    }
+    /// runs until every worker called done(); `describe(worker)` renders what a worker is executing
+    fn monitor(&self, what: &str, describe: &dyn Fn(usize) -> Value) {
+        let n = self.prog.len();
+        let mut last: u64 = u64::MAX;
+        let mut since = std::time::Instant::now();
+        while self.finished.load(Ordering::SeqCst) < n {
+            std::thread::sleep(Duration::from_millis(200));
+            let p: u64 = self.prog.iter().map(|a| a.load(Ordering::Relaxed)).sum();
+            if p != last {
+                last = p;
+                since = std::time::Instant::now();
+            } else if since.elapsed().as_secs() >= HANG_SECS {
+                let stuck: Vec<Value> = (0..n).map(describe).collect();
+                out_line(&json!({"summary": "hang", "mode": what, "seconds_without_progress": since.elapsed().as_secs(), "executing": stuck}));
+                std::process::exit(4);
+            }
+        }
     }
 }
 
@@ -412,9 +476,35 @@ fn cmd_edges(args: &[String]) {
     let mism: Mutex<Vec<Value>> = Mutex::new(vec![]);
     let mism_count = AtomicU64::new(0);
     let all_samples: Mutex<Vec<Sample>> = Mutex::new(vec![]);
+    let watch = Watch::new(threads);
     std::thread::scope(|sc| {
+        {
+            let (watch, t, path_to) = (&watch, &t, &path_to);
+            sc.spawn(move || {
+                watch.monitor("edges", &|w| {
+                    // slot 0: source state + 1, slot 1: edge index + 1, slot 2: probe index + 1
+                    let s = watch.get(w, 0);
+                    if s == 0 {
+                        return json!(null);
+                    }
+                    let s = (s - 1) as usize;
+                    let mut seq = path_to(s as u32);
+                    let e = watch.get(w, 1);
+                    if e > 0 {
+                        let edge = t.out[s][(e - 1) as usize];
+                        seq.push(edge.op);
+                        let p = watch.get(w, 2);
+                        if p > 0 {
+                            seq.push(t.out[edge.next as usize][(p - 1) as usize].op);
+                        }
+                    }
+                    json!({"limit": limit, "tl": tl, "unit": unit, "ops": seq.iter().map(|o| o.json()).collect::<Vec<_>>()})
+                })
+            });
+        }
         for thx in 0..threads {
             let all_samples = &all_samples;
+            let watch = &watch;
             let (t, next_state, stats, mism, mism_count, path_to) = (&t, &next_state, &stats, &mism, &mism_count, &path_to);
             sc.spawn(move || {
                 let sample = std::cell::RefCell::new(Sample::new(2000 / threads.max(1), seed_from_env() ^ thx as u64));
@@ -427,10 +517,14 @@ fn cmd_edges(args: &[String]) {
                     let s = i as u32;
                     let path = path_to(s);
                     mp = mp.max(path.len());
-                    for e in &t.out[i] {
+                    watch.set(thx, 0, i as u64 + 1);
+                    for (ei, e) in t.out[i].iter().enumerate() {
                         let mut seq = path.clone();
                         seq.push(e.op);
                         ne += 1;
+                        watch.set(thx, 1, ei as u64 + 1);
+                        watch.set(thx, 2, 0);
+                        watch.tick(thx);
                         // non-trivial edge: a set that evicts or replaces (the queue does not simply grow by
                         // one), or a lookup that misses although an entry for the key is present (stale)
                         let present = t.state_keys[i].contains(&(e.op.route, e.op.host));
@@ -440,7 +534,7 @@ fn cmd_edges(args: &[String]) {
                             nt += 1;
                         }
                         let record = |m: Mismatch| {
-                            sample.borrow_mut().offer(&m.seq);
+                            sample.borrow_mut().offer(&m.seq, m.got == json!("panic"));
                             if mism_count.fetch_add(1, Ordering::SeqCst) < 10 {
                                 mism.lock().unwrap().push(m.json(limit, tl, unit));
                             }
@@ -456,10 +550,12 @@ fn cmd_edges(args: &[String]) {
                             }
                         }
                         // one-operation probes from the target state (adjacent edge pairs)
-                        for e2 in &t.out[e.next as usize] {
+                        for (pi, e2) in t.out[e.next as usize].iter().enumerate() {
                             let mut seq2 = seq.clone();
                             seq2.push(e2.op);
                             np += 1;
+                            watch.set(thx, 2, pi as u64 + 1);
+                            watch.tick(thx);
                             match run_checked(&t, limit, tl, unit, &seq2, seq2.len() - 1, &t.keys) {
                                 Ok((c, g)) => {
                                     nc += c;
@@ -474,6 +570,7 @@ fn cmd_edges(args: &[String]) {
                     }
                 }
                 all_samples.lock().unwrap().push(sample.into_inner());
+                watch.done();
                 let mut st = stats.lock().unwrap();
                 st.0 += ne;
                 st.1 += np;
@@ -556,9 +653,21 @@ fn cmd_lockstep(args: &[String]) {
     let mism_count = AtomicU64::new(0);
     let samples: Mutex<Vec<Value>> = Mutex::new(vec![]);
     let all_samples: Mutex<Vec<Sample>> = Mutex::new(vec![]);
+    let watch = Watch::new(threads);
     std::thread::scope(|sc| {
+        {
+            let (watch, alpha) = (&watch, &alpha);
+            sc.spawn(move || {
+                watch.monitor("lockstep", &|w| {
+                    // slots 0..len: letter + 1 of the word being executed
+                    let ops: Vec<Value> = (0..len.min(8)).filter(|i| watch.get(w, *i) > 0).map(|i| alpha[(watch.get(w, i) - 1) as usize].json()).collect();
+                    json!({"limit": limit, "tl": tl, "unit": unit, "ops": ops, "note": "content ids follow the graph (NextId)"})
+                })
+            });
+        }
         for thx in 0..threads {
             let all_samples = &all_samples;
+            let watch = &watch;
             let (t, alpha, nxt, rid, res, look, keys, set_key, next_item, totals, visited, mism, mism_count, samples) =
                 (&t, &alpha, &nxt, &rid, &res, &look, &keys, &set_key, &next_item, &totals, &visited, &mism, &mism_count, &samples);
             sc.spawn(move || {
@@ -596,6 +705,10 @@ fn cmd_lockstep(args: &[String]) {
                         let mut s = t.init as usize;
                         let mut stored: u32 = 0;
                         tot[0] += 1;
+                        for (i, l) in word.iter().enumerate().take(8) {
+                            watch.set(thx, i, *l as u64 + 1);
+                        }
+                        watch.tick(thx);
                         for i in 0..len {
                             let l = word[i];
                             let ix = s * a + l;
@@ -655,7 +768,7 @@ fn cmd_lockstep(args: &[String]) {
                                     ops.push(OpA { id: rid[ix], ..alpha[word[j]] });
                                     st = nxt[ix] as usize;
                                 }
-                                sample.offer(&ops);
+                                sample.offer(&ops, got == json!("panic"));
                                 if mism_count.fetch_add(1, Ordering::SeqCst) < 10 {
                                     mism.lock().unwrap().push(Mismatch { what, seq: ops, step: i, exp, got }.json(limit, tl, unit));
                                 }
@@ -678,6 +791,7 @@ fn cmd_lockstep(args: &[String]) {
                     }
                 }
                 all_samples.lock().unwrap().push(sample);
+                watch.done();
                 let mut g = totals.lock().unwrap();
                 for i in 0..6 {
                     g[i] += tot[i];
@@ -802,16 +916,25 @@ fn cmd_calibrate() {
     let real1 = now_secs();
     // 2. and it is what the real Cache stores and compares with
     set_vclock(BASE);
-    let mut c = make_cache(10, 1);
-    c.set("/x", 0, vec![7; 3], MimeType::TextPlain);
-    let stored = c.get("/x", 0).map(|i| i.cache_time as i64);
-    set_vclock(BASE + 1);
-    let at1 = c.get("/x", 0).is_some();
-    set_vclock(BASE + 2);
-    let at2 = c.get("/x", 0).is_some();
+    let (stored, at1, at2) = catch_unwind(|| {
+        let mut c = make_cache(10, 1);
+        c.set("/x", 0, vec![7; 3], MimeType::TextPlain);
+        let stored = c.get("/x", 0).map(|i| i.cache_time as i64);
+        set_vclock(BASE + 1);
+        let at1 = c.get("/x", 0).is_some();
+        set_vclock(BASE + 2);
+        let at2 = c.get("/x", 0).is_some();
+        (stored, at1, at2)
+    })
+    .unwrap_or((None, false, true));
     set_vclock(-1);
-    let ok = v == BASE + 5 && (other - real0).abs() <= 2 && (real1 - real0).abs() <= 2 && real0 < BASE && stored == Some(BASE) && at1 && !at2;
-    out_line(&json!({"summary": "calibrate", "ok": ok, "virtual_seen": v, "other_thread": other, "real": real0, "stored_time": stored, "hit_at_1": at1, "hit_at_2": at2}));
+    // the override itself (a fact about this binary; failing it is a tool error) ...
+    let ok = v == BASE + 5 && (other - real0).abs() <= 2 && (real1 - real0).abs() <= 2 && real0 < BASE;
+    // ... and that the Cache stores / compares that time (what the code under test does with it is data:
+    // if it is off, the replays that follow report it)
+    let cache_ok = stored == Some(BASE) && at1 && !at2;
+    out_line(&json!({"summary": "calibrate", "ok": ok, "cache_uses_clock": cache_ok, "virtual_seen": v, "other_thread": other, "real": real0,
+                     "stored_time": stored, "hit_at_1": at1, "hit_at_2": at2}));
     if !ok {
         std::process::exit(3);
     }
@@ -838,6 +961,12 @@ fn cmd_realclock() {
             }
             std::thread::sleep(Duration::from_millis(if tl == 0 { 1050 } else { 2050 } / if round == 0 && tl == 1 { 2 } else { 1 }));
             for k in 0..4usize {
+                do_get(&cache, &log, 0, &format!("/r{}", k), k % 2, false);
+            }
+            // store again what may just have expired: same key, SAME length, other bytes; it must be retrievable at once
+            for k in 0..4usize {
+                let size = [0, 16, 32, 64][(k + round) % 4];
+                do_set(&cache, &log, 0, &format!("/r{}", k), k % 2, rng.bytes(size), MIMES[(k + 1) % MIMES.len()], false);
                 do_get(&cache, &log, 0, &format!("/r{}", k), k % 2, false);
             }
         }
@@ -931,16 +1060,23 @@ fn do_get(cache: &RwLock<Cache>, log: &Log, thr: usize, route: &str, host: usize
 }
 
 fn random_size(rng: &mut Rng, limit: usize) -> usize {
-    match rng.below(12) {
+    match rng.below(13) {
         0 => 0,
         1 => limit,
         2 => limit / 2,
         3 => limit.saturating_sub(1),
         4 => (limit / 2 + 1).min(limit),
-        5..=8 => rng.range(0, (limit / 8).max(1).min(limit)),
+        5 => 1.min(limit),
+        6..=9 => rng.range(0, (limit / 8).max(1).min(limit)),
         _ => rng.range(0, limit),
     }
 }
+
+/// 8 routes x 4 hosts = 32 keys.  The routes differ only in case, a trailing slash, percent-encoding,
+/// Unicode normalisation form (U+00E9 vs e + U+0301), or are empty / non-ASCII: every one is its own key.
+/// The hosts sit on the boundaries of narrower integer types.
+const RROUTES: [&str; 8] = ["/k1", "/K1", "/k1/", "/k%31", "/\u{e9}", "/e\u{301}", "", "/\u{df}"];
+const RHOSTS: [usize; 4] = [0, 1, 256, 65536];
 
 fn cmd_random(args: &[String]) {
     let threads: usize = args[0].parse().unwrap();
@@ -955,16 +1091,22 @@ fn cmd_random(args: &[String]) {
     let cache = RwLock::new(make_cache(limit, tl));
     let log = Log::new(limit, tl);
     let remaining = AtomicI64::new(nops as i64);
+    let watch = Watch::new(threads);
     std::thread::scope(|sc| {
+        {
+            let watch = &watch;
+            sc.spawn(move || watch.monitor("random", &|w| json!(*watch.note[w].lock().unwrap())));
+        }
         for th in 0..threads {
-            let (cache, log, remaining) = (&cache, &log, &remaining);
+            let (cache, log, remaining, watch) = (&cache, &log, &remaining, &watch);
             sc.spawn(move || {
                 let mut rng = Rng::new(seed.wrapping_mul(31).wrapping_add(th as u64));
-                // 32 keys: 16 routes x 2 hosts; lookups prefer keys this thread stored recently
+                // lookups prefer keys this thread stored recently
                 let mut recent: Vec<(String, usize)> = vec![];
                 while remaining.fetch_sub(1, Ordering::SeqCst) > 0 {
-                    let mut route = format!("/k{}", rng.below(16));
-                    let mut host = rng.below(2);
+                    let mut route = rng.pick(&RROUTES).to_string();
+                    let mut host = *rng.pick(&RHOSTS);
+                    watch.tick(th);
                     if virt {
                         // the clock moves between calls and (other threads) during calls
                         match rng.below(200) {
@@ -978,6 +1120,7 @@ fn cmd_random(args: &[String]) {
                         let size = random_size(&mut rng, limit);
                         let data = rng.bytes(size);
                         let mime = *rng.pick(&MIMES);
+                        *watch.note[th].lock().unwrap() = format!("set({:?}, {}, {} bytes) limit={} tl={}", route, host, size, limit, tl);
                         do_set(cache, log, th, &route, host, data, mime, virt);
                         recent.push((route, host));
                         if recent.len() > 6 {
@@ -989,138 +1132,221 @@ fn cmd_random(args: &[String]) {
                             route = r;
                             host = h;
                         }
+                        *watch.note[th].lock().unwrap() = format!("get({:?}, {}) limit={} tl={}", route, host, limit, tl);
                         do_get(cache, log, th, &route, host, virt);
                     }
                 }
+                watch.done();
             });
         }
     });
+    // final sweep: the exact content of the cache after the concurrent phase, one lookup per key
+    for r in RROUTES {
+        for h in RHOSTS {
+            do_get(&cache, &log, 0, r, h, virt);
+        }
+    }
     log.dump(if virt { "virtual" } else { "real" }, threads);
 }
 
 // ------------------------------------------------------------------------------------------------
 // C at handler level: file_handler / directory_handler with a cache-enabled AppState
 // ------------------------------------------------------------------------------------------------
-fn request(uri: &str) -> Request {
-    Request {
-        method: Method::Get,
-        uri: uri.to_string(),
-        query: String::new(),
-        version: "HTTP/1.1".to_string(),
-        headers: Headers::new(),
-        content: None,
-        address: Address::new("127.0.0.1:4000").unwrap(),
+/// A request as production builds it: the bytes of a GET request parsed by the real parser
+/// (Request::from_stream), so that uri / query are split the way the server splits them.
+fn request(target: &str) -> Request {
+    let bytes = format!("GET {} HTTP/1.1\r\nHost: localhost\r\nUser-Agent: hv\r\n\r\n", target).into_bytes();
+    let mut rd: &[u8] = &bytes;
+    match Request::from_stream(&mut rd, "127.0.0.1:4000".parse().unwrap()) {
+        Ok(r) => r,
+        Err(_) => Request {
+            // (not reached for the targets below; keeps the harness total)
+            method: Method::Get,
+            uri: target.to_string(),
+            query: String::new(),
+            version: "HTTP/1.1".to_string(),
+            headers: Headers::new(),
+            content: None,
+            address: Address::new("127.0.0.1:4000").unwrap(),
+        },
     }
 }
 
+// (request target, host, kind, what the target resolves to)   kind 0: directory route "/*" on `site`, 1: file route
+// "/" = a directory named without the trailing slash (301), "-" = nothing (404).  Targets that differ only in a
+// trailing slash, in case, in percent-encoding or in the query string; the same path on two hosts with the same
+// and with different files behind it.
+const TARGETS: [(&str, usize, u8, &str); 18] = [
+    ("/a.html", 0, 0, "a.html"),
+    ("/a.html?v=2", 0, 0, "a.html"),
+    ("/A.html", 0, 0, "A.html"),
+    ("/a.html/", 0, 0, "-"),
+    ("/a%2Ehtml", 0, 0, "a.html"),
+    ("/a.html", 1, 0, "a.html"),
+    ("/b.png", 0, 0, "b.png"),
+    ("/sub/", 0, 0, "sub/index.html"),
+    ("/sub", 0, 0, "/"),
+    ("/sub//", 0, 0, "sub/index.html"),
+    ("/sub/c.css", 1, 0, "sub/c.css"),
+    ("/sub/c.css/", 1, 0, "-"),
+    ("/single", 0, 1, "b.png"),
+    ("/single", 1, 1, "data.bin"),
+    ("/single/", 0, 1, "b.png"),
+    ("/empty.txt", 0, 0, "empty.txt"),
+    ("/nope.txt", 1, 0, "-"),
+    ("/nope.txt", 0, 0, "-"),
+];
+// the MIME type each file has by its extension (what a miss must answer)
+const FILES: [(&str, &str); 7] = [("a.html", "text/html"), ("A.html", "text/html"), ("b.png", "image/png"), ("sub/index.html", "text/html"),
+                                  ("sub/c.css", "text/css"), ("data.bin", "application/octet-stream"), ("empty.txt", "text/plain")];
+
+struct HLog {
+    seq: AtomicU64,
+    events: Mutex<Vec<(u64, Value)>>,
+    limit: usize,
+    tl: usize,
+}
+impl HLog {
+    #[allow(clippy::too_many_arguments)]
+    fn ev(&self, ev: &str, s: u64, thr: usize, uri: &str, host: usize, file: &str, size: usize, hash: u64, mime: &str, lo: i64, hi: i64, status: u64) -> Value {
+        json!({"ev": ev, "seq": s, "thr": thr, "uri": uri, "host": host, "file": file, "size": size, "hash": hash, "mime": mime,
+               "lo": lo, "hi": hi, "status": status, "limit": self.limit, "tl": self.tl})
+    }
+    fn next(&self) -> u64 {
+        self.seq.fetch_add(1, Ordering::SeqCst)
+    }
+    fn dump(&self, threads: usize) {
+        out_line(&self.ev("reset", 0, 0, "", 0, "", 0, 0, "", 0, 0, threads as u64));
+        let mut ev = self.events.lock().unwrap();
+        ev.sort_by_key(|e| e.0);
+        for (_, v) in ev.iter() {
+            out_line(v);
+        }
+    }
+}
+
+/// writes a file and stamps it with the clock the process sees (so that modification times and the
+/// cache's times live on one time line also under the virtual clock)
+fn write_file(log: &HLog, site: &std::path::Path, f: &str, mime: &str, data: &[u8]) {
+    let path = site.join(f);
+    std::fs::write(&path, data).unwrap();
+    let now = now_secs();
+    let c = std::ffi::CString::new(path.to_str().unwrap()).unwrap();
+    let ts = [libc::timespec { tv_sec: now as libc::time_t, tv_nsec: 0 }, libc::timespec { tv_sec: now as libc::time_t, tv_nsec: 0 }];
+    unsafe {
+        libc::utimensat(libc::AT_FDCWD, c.as_ptr(), ts.as_ptr(), 0);
+    }
+    let s = log.next();
+    log.events.lock().unwrap().push((s, log.ev("write", s, 0, "", 0, f, data.len(), h31(data), mime, now, now, 0)));
+}
+
+/// one handler call through the real entry points of static.rs; `start` and `end` records
+fn handle(log: &HLog, state: &Arc<AppState>, site_s: &str, th: usize, target: (&str, usize, u8, &str)) {
+    let (raw, host, kind, file) = target;
+    let s0 = log.next();
+    let lo = now_secs();
+    let st = state.clone();
+    let path = format!("{}/{}", site_s, file);
+    let req = request(raw);
+    let uri = req.uri.clone();
+    let r = catch_unwind(AssertUnwindSafe(|| {
+        if kind == 0 {
+            directory_handler(req, st, site_s, "/*", host)
+        } else {
+            file_handler(req, st, &path, host)
+        }
+    }));
+    let hi = now_secs();
+    let s1 = log.next();
+    let end = match r {
+        Ok(resp) => {
+            let code: u16 = resp.status_code.into();
+            let ct = resp.headers.get("Content-Type").unwrap_or("").to_string();
+            if code == 200 {
+                log.ev("end", s1, th, &uri, host, file, resp.body.len(), h31(&resp.body), &ct, lo, hi, 200)
+            } else {
+                log.ev("end", s1, th, &uri, host, file, 0, 0, "", lo, hi, code as u64)
+            }
+        }
+        Err(_) => log.ev("end", s1, th, &uri, host, file, 0, 0, "", lo, hi, 0),
+    };
+    let mut ev = log.events.lock().unwrap();
+    ev.push((s0, log.ev("start", s0, th, &uri, host, file, 0, 0, "", lo, hi, 0)));
+    ev.push((s1, end));
+}
+
+fn handler_state(dir: &std::path::Path, limit: usize, tl: usize) -> (Arc<AppState>, std::path::PathBuf) {
+    let _ = std::fs::remove_dir_all(dir);
+    std::fs::create_dir_all(dir.join("site/sub")).unwrap();
+    let mut config = Config::default();
+    config.cache.size_limit = limit;
+    config.cache.time_limit = tl;
+    config.logging.console = false;
+    config.logging.level = LogLevel::Error;
+    (Arc::new(AppState::from(config)), dir.join("site"))
+}
+
 /// Events: `write` (a file got new content; logged with the clock), `start` / `end` (one handler call:
-/// thread, uri, host, the file the target resolves to, clock window; status, body identity, content type).
-/// Several threads call the handlers; files are rewritten only *between* phases of requests (the
-/// property's "files change between requests"), within a phase requests race with each other.
+/// thread, uri as parsed, host, the file the target resolves to, clock window; status, body identity,
+/// content type).  Several threads call the handlers; files are rewritten only *between* phases of
+/// requests (the property's "files change between requests"), within a phase requests race.
 fn cmd_handlers(args: &[String]) {
     let dir = std::path::PathBuf::from(&args[0]);
     let nops: usize = args[1].parse().unwrap();
     let limit: usize = args[2].parse().unwrap();
     let tl: usize = args[3].parse().unwrap();
     let threads: usize = args[4].parse().unwrap();
-    let _ = std::fs::remove_dir_all(&dir);
-    std::fs::create_dir_all(dir.join("site/sub")).unwrap();
     GLOBAL_CLOCK.store(BASE, Ordering::SeqCst);
-    let mut config = Config::default();
-    config.cache.size_limit = limit;
-    config.cache.time_limit = tl;
-    config.logging.console = false;
-    config.logging.level = LogLevel::Error;
-    let state = Arc::new(AppState::from(config));
-    let site = dir.join("site");
+    let (state, site) = handler_state(&dir, limit, tl);
     let site_s = site.to_str().unwrap().to_string();
-    // (uri, host, kind, what the target resolves to)   kind 0: directory route "/*" on `site`, 1: file route
-    // "/" = a directory named without the trailing slash (301), "-" = nothing (404)
-    let targets: Vec<(&str, usize, u8, &str)> = vec![
-        ("/a.html", 0, 0, "a.html"),
-        ("/b.png", 0, 0, "b.png"),
-        ("/sub/", 0, 0, "sub/index.html"),
-        ("/sub/c.css", 1, 0, "sub/c.css"),
-        ("/a.html", 1, 0, "a.html"),
-        ("/single", 0, 1, "b.png"),
-        ("/single", 1, 1, "data.bin"),
-        ("/empty.txt", 0, 0, "empty.txt"),
-        ("/sub", 0, 0, "/"),
-        ("/nope.txt", 1, 0, "-"),
-    ];
-    // the MIME type each file has by its extension (what a miss must answer)
-    let files = [("a.html", "text/html"), ("b.png", "image/png"), ("sub/index.html", "text/html"), ("sub/c.css", "text/css"),
-                 ("data.bin", "application/octet-stream"), ("empty.txt", "text/plain")];
     let mut rng = Rng::from_env();
-    let seq = AtomicU64::new(1);
-    let events: Mutex<Vec<(u64, Value)>> = Mutex::new(vec![]);
-    let hev = |ev: &str, s: u64, thr: usize, uri: &str, host: usize, file: &str, size: usize, hash: u64, mime: &str, lo: i64, hi: i64, status: u64| -> Value {
-        json!({"ev": ev, "seq": s, "thr": thr, "uri": uri, "host": host, "file": file, "size": size, "hash": hash, "mime": mime,
-               "lo": lo, "hi": hi, "status": status, "limit": limit, "tl": tl})
+    let log = HLog { seq: AtomicU64::new(1), events: Mutex::new(vec![]), limit, tl };
+    let new_content = |rng: &mut Rng, f: &str, same_len: Option<usize>| -> Vec<u8> {
+        let size = if f == "empty.txt" { 0 } else { same_len.unwrap_or_else(|| random_size(rng, limit + limit / 4 + 1)) };
+        rng.bytes(size)
     };
-    out_line(&hev("reset", 0, 0, "", 0, "", 0, 0, "", 0, 0, threads as u64));
-    let write_file = |rng: &mut Rng, f: &str, mime: &str| {
-        let size = if f == "empty.txt" { 0 } else { random_size(rng, limit + limit / 4 + 1) };
-        let data = rng.bytes(size);
-        std::fs::write(site.join(f), &data).unwrap();
-        let s = seq.fetch_add(1, Ordering::SeqCst);
-        let now = now_secs();
-        events.lock().unwrap().push((s, hev("write", s, 0, "", 0, f, size, h31(&data), mime, now, now, 0)));
-    };
-    for (f, m) in files {
-        write_file(&mut rng, f, m);
+    let mut sizes: HashMap<&str, usize> = HashMap::new();
+    for (f, m) in FILES {
+        let data = new_content(&mut rng, f, None);
+        sizes.insert(f, data.len());
+        write_file(&log, &site, f, m, &data);
     }
-    let per_phase = 6 * threads;
+    let per_phase = 8 * threads;
     let phases = (nops / per_phase).max(1);
-    for _ in 0..phases {
+    // (workers never call done(): the monitor watches until the process ends)
+    let watch = Arc::new(Watch::new(threads));
+    {
+        let watch = watch.clone();
+        std::thread::spawn(move || watch.monitor("handlers", &|w| json!(*watch.note[w].lock().unwrap())));
+    }
+    for _phase in 0..phases {
         // requests race with each other, files are stable
         let remaining = AtomicI64::new(per_phase as i64);
         std::thread::scope(|sc| {
             for th in 0..threads {
-                let (state, remaining, targets, seq, events, site_s, hev) = (&state, &remaining, &targets, &seq, &events, &site_s, &hev);
+                let (state, remaining, log, site_s, watch) = (&state, &remaining, &log, &site_s, &watch);
                 let mut trng = Rng::new(rng.next_u64() ^ th as u64);
                 sc.spawn(move || {
                     while remaining.fetch_sub(1, Ordering::SeqCst) > 0 {
-                        let (uri, host, kind, file) = *trng.pick(targets);
+                        let target = *trng.pick(&TARGETS);
                         if trng.chance(1, 12) {
                             GLOBAL_CLOCK.fetch_add(1, Ordering::SeqCst);
                         }
-                        let s0 = seq.fetch_add(1, Ordering::SeqCst);
-                        let lo = now_secs();
-                        let st = state.clone();
-                        let path = format!("{}/{}", site_s, file);
-                        let r = catch_unwind(AssertUnwindSafe(|| {
-                            if kind == 0 {
-                                directory_handler(request(uri), st, site_s, "/*", host)
-                            } else {
-                                file_handler(request(uri), st, &path, host)
-                            }
-                        }));
-                        let hi = now_secs();
-                        let s1 = seq.fetch_add(1, Ordering::SeqCst);
-                        let end = match r {
-                            Ok(resp) => {
-                                let code: u16 = resp.status_code.into();
-                                let ct = resp.headers.get("Content-Type").unwrap_or("").to_string();
-                                if code == 200 {
-                                    hev("end", s1, th, uri, host, file, resp.body.len(), h31(&resp.body), &ct, lo, hi, 200)
-                                } else {
-                                    hev("end", s1, th, uri, host, file, 0, 0, "", lo, hi, code as u64)
-                                }
-                            }
-                            Err(_) => hev("end", s1, th, uri, host, file, 0, 0, "", lo, hi, 0),
-                        };
-                        let mut ev = events.lock().unwrap();
-                        ev.push((s0, hev("start", s0, th, uri, host, file, 0, 0, "", lo, hi, 0)));
-                        ev.push((s1, end));
+                        *watch.note[th].lock().unwrap() = format!("GET {} host {} limit={} tl={}", target.0, target.1, limit, tl);
+                        watch.tick(th);
+                        handle(log, state, site_s, th, target);
                     }
                 });
             }
         });
-        // files change between requests; sometimes time passes
-        for (f, m) in files {
+        // files change between requests - often within the same second in which they were cached, and often
+        // keeping their length; sometimes time passes
+        for (f, m) in FILES {
             if rng.chance(1, 3) {
-                write_file(&mut rng, f, m);
+                let keep = if rng.chance(1, 2) { sizes.get(f).copied() } else { None };
+                let data = new_content(&mut rng, f, keep);
+                sizes.insert(f, data.len());
+                write_file(&log, &site, f, m, &data);
             }
         }
         match rng.below(10) {
@@ -1129,10 +1355,43 @@ fn cmd_handlers(args: &[String]) {
             _ => {}
         }
     }
-    let mut ev = events.lock().unwrap();
-    ev.sort_by_key(|e| e.0);
-    for (_, v) in ev.iter() {
-        out_line(v);
+    log.dump(threads);
+    let _ = std::fs::remove_dir_all(&dir);
+}
+
+/// The same on the unmodified wall clock: cache a file, rewrite it within the same second (same length),
+/// request again, let the time limit pass, request again; then once more across the next expiry.
+fn cmd_realhandlers(args: &[String]) {
+    let dir = std::path::PathBuf::from(&args[0]);
+    set_vclock(-1);
+    GLOBAL_CLOCK.store(-1, Ordering::SeqCst);
+    let mut rng = Rng::from_env();
+    for tl in [0usize, 1] {
+        let limit = 4096usize;
+        let (state, site) = handler_state(&dir, limit, tl);
+        let site_s = site.to_str().unwrap().to_string();
+        let log = HLog { seq: AtomicU64::new(1), events: Mutex::new(vec![]), limit, tl };
+        for (f, m) in FILES {
+            write_file(&log, &site, f, m, &rng.bytes(if f == "empty.txt" { 0 } else { 100 }));
+        }
+        let picks = [TARGETS[0], TARGETS[7], TARGETS[8], TARGETS[12], TARGETS[13], TARGETS[3], TARGETS[5]];
+        for round in 0..2 {
+            for t in picks {
+                handle(&log, &state, &site_s, 0, t);
+            }
+            // rewritten at once (in all likelihood the very second in which it was cached), same length
+            for (f, m) in FILES {
+                write_file(&log, &site, f, m, &rng.bytes(if f == "empty.txt" { 0 } else { 100 }));
+            }
+            for t in picks {
+                handle(&log, &state, &site_s, 0, t);
+            }
+            std::thread::sleep(Duration::from_millis(if tl == 0 { 1100 } else if round == 0 { 1100 } else { 2100 }));
+            for t in picks {
+                handle(&log, &state, &site_s, 0, t);
+            }
+        }
+        log.dump(1);
     }
     let _ = std::fs::remove_dir_all(&dir);
 }
@@ -1150,6 +1409,7 @@ fn main() {
         "random" => cmd_random(&args[1..]),
         "handlers" => cmd_handlers(&args[1..]),
         "realclock" => cmd_realclock(),
+        "realhandlers" => cmd_realhandlers(&args[1..]),
         "runseq" => cmd_runseq(&args[1..]),
         _ => tool_error("unknown command"),
     }
